@@ -560,21 +560,6 @@ impl<Writer: Write> Mp4Writer<Writer> {
             .as_ref()
             .ok_or(Mp4WriterError::AudioNotEnabled)?;
 
-        if let Some(prev) = self.audio_prev_pts {
-            if pts < prev {
-                return Err(Mp4WriterError::NonIncreasingTimestamp);
-            }
-            let delta = pts - prev;
-            if delta > u64::from(u32::MAX) {
-                return Err(Mp4WriterError::DurationOverflow);
-            }
-            let delta = delta as u32;
-            if let Some(last) = self.audio_samples.last_mut() {
-                last.duration = Some(delta);
-            }
-            self.audio_last_delta = Some(delta);
-        }
-
         // Process audio data based on codec
         let sample_data = match audio_track.codec {
             AudioCodec::Aac(profile) => {
@@ -612,6 +597,21 @@ impl<Writer: Write> Mp4Writer<Writer> {
 
         if sample_data.len() > u32::MAX as usize {
             return Err(Mp4WriterError::DurationOverflow);
+        }
+
+        if let Some(prev) = self.audio_prev_pts {
+            if pts < prev {
+                return Err(Mp4WriterError::NonIncreasingTimestamp);
+            }
+            let delta = pts - prev;
+            if delta > u64::from(u32::MAX) {
+                return Err(Mp4WriterError::DurationOverflow);
+            }
+            let delta = delta as u32;
+            if let Some(last) = self.audio_samples.last_mut() {
+                last.duration = Some(delta);
+            }
+            self.audio_last_delta = Some(delta);
         }
 
         self.audio_samples.push(SampleInfo {
